@@ -226,3 +226,81 @@ contract(MW, "DatasetWriting.check", props=["C05", "C16", "C17"],
             ("C05", "forall(lambda m: implies(0 <= m and m < _k, FILE_MATCHES(self, shard_info.file_infos[m])))"),
         ]),
     })
+
+# ---- DatasetFiller ------------------------------------------------------------------
+# what a ShardListInfo must say about the list file it names (C04, C05, C16)
+macro("INFO_EXACT", ["root", "algs", "info"],
+      "VALID_ShardListInfo(info) and dstate(PJOIN(root, info.shard_list_info_file.file_path)) == 2"
+      " and DOC_AT(root, info.shard_list_info_file.file_path).relative_path_self == info.shard_list_info_file.file_path"
+      " and info.number_of_examples == DOC_AT(root, info.shard_list_info_file.file_path).number_of_examples"
+      " and info.number_of_shards == len(DOC_AT(root, info.shard_list_info_file.file_path).shard_files)"
+      "       + lsum(DOC_AT(root, info.shard_list_info_file.file_path).children_shard_lists, 'number_of_shards')"
+      " and IS_DIGESTS(info.shard_list_info_file.hash_checksums, algs, disk_read(PJOIN(root, info.shard_list_info_file.file_path)))"
+      " and LEX(DOC_AT(root, info.shard_list_info_file.file_path))"
+      " and LISTED_COMPLETE(root, DOC_AT(root, info.shard_list_info_file.file_path))")
+
+contract(MF, CTX + ".shard_lists", props=["C04", "C09"], params={}, returns="dict:ref:ShardsList",
+    modifies=[], property=True, ensures=["result is self._shards_lists"], verify=False, assumed=True,
+    note="one-line getter (return self._shards_lists); compared textually by tools/check_classes.py")
+
+contract(MF, CTX + ".__init__", props=["C17", "C10", "C09"],
+    params={"dataset_root_path": "U", "dataset_structure": "ref:DatasetStructure",
+            "relative_path_from_split": "U", "write_updates": "bool"},
+    modifies=["_DatasetFillerContext._dataset_root_path@self", "_DatasetFillerContext._dataset_structure@self",
+              "_DatasetFillerContext._relative_path_from_split@self", "_DatasetFillerContext._write_updates@self",
+              "_DatasetFillerContext._examples_per_shard@self", "_DatasetFillerContext._current_shards_progress@self",
+              "_DatasetFillerContext._shards_lists@self"],
+    ensures=[
+        # C17: the sub-directory option cannot leave the root
+        ("C17", "SAFE(relative_path_from_split)"),
+        "self._dataset_root_path == dataset_root_path and self._relative_path_from_split == relative_path_from_split",
+        "self._examples_per_shard == dataset_structure.examples_per_shard",
+        "forall(lambda s: not (s in self._current_shards_progress) and not (s in self._shards_lists), s='U')",
+    ],
+    raises={"ValueError": [("C17", "not SAFE(relative_path_from_split)")]})
+
+MFD = "DatasetFiller"
+contract(MF, MFD + ".__init__", props=["C17", "C09", "C10"],
+    params={"dataset": "ref:DatasetWriting", "relative_path_from_split": "U", "auto_update_dataset": "bool"},
+    modifies=["DatasetFiller._dataset_filler_context@self", "DatasetFiller._auto_update_dataset@self",
+              "DatasetFiller._dataset@self", "DatasetFiller._updated_infos@self"],
+    ensures=[
+        ("C17", "SAFE(relative_path_from_split)"),
+        "self._dataset is dataset and self._auto_update_dataset == auto_update_dataset and len(self._updated_infos) == 0",
+        "fresh(self._dataset_filler_context)",
+        "self._dataset_filler_context._dataset_root_path == dataset.path",
+        "self._dataset_filler_context._relative_path_from_split == relative_path_from_split",
+        "self._dataset_filler_context._examples_per_shard == dataset._dataset_info.dataset_structure.examples_per_shard",
+        "forall(lambda s: not (s in self._dataset_filler_context._current_shards_progress) and not (s in self._dataset_filler_context._shards_lists), s='U')",
+    ],
+    raises={"ValueError": [("C17", "not SAFE(relative_path_from_split)")]})
+
+contract(MF, MFD + ".__enter__", props=["C09", "C10"], params={}, returns="ref:_DatasetFillerContext",
+    modifies=[], requires=["len(self._updated_infos) == 0"],
+    ensures=["result is self._dataset_filler_context"])
+
+contract(MF, MFD + ".get_updated_infos", props=["C09"], params={}, returns="list:ref:ShardListInfo",
+    modifies=[], ensures=["result == self._updated_infos"])
+
+macro("FCTX", ["f"], "f._dataset_filler_context")
+contract(MF, MFD + "._update_infos", props=["C04", "C06", "C09", "C16", "C05"], params={},
+    requires=["len(self._updated_infos) == 0", "CTX_LISTS_OK(FCTX(self))",
+              "FCTX(self)._dataset_root_path == self._dataset.path"],
+    modifies=["DatasetFiller._updated_infos@self", "ghost:fs"],
+    at_call={"write_config": [
+        # C16: list files are hashed with the dataset's configured algorithms
+        ("C16", "callee_hashes == ALGS(self._dataset)"),
+        ("C09", "callee_dataset_root_path == self._dataset.path")]},
+    ensures=[
+        # one info per list written by this filler, each exact for its file
+        ("C04", "len(self._updated_infos) == dictlen(FCTX(self)._shards_lists)"),
+        ("C04", "forall(lambda j: implies(0 <= j and j < len(self._updated_infos), INFO_EXACT(self._dataset.path, ALGS(self._dataset), self._updated_infos[j])"
+                "  and self._updated_infos[j].shard_list_info_file.file_path == FCTX(self)._shards_lists[dictkey(FCTX(self)._shards_lists, j)].relative_path_self))"),
+    ],
+    loops={1: Loop(inv=[
+        "0 <= _k and len(self._updated_infos) == _k and _k <= dictlen(FCTX(self)._shards_lists)",
+        "CTX_LISTS_OK(FCTX(self))", "FCTX(self)._dataset_root_path == self._dataset.path",
+        ("C04", "forall(lambda j: implies(0 <= j and j < _k, INFO_EXACT(self._dataset.path, ALGS(self._dataset), self._updated_infos[j])"
+                "  and self._updated_infos[j].shard_list_info_file.file_path == FCTX(self)._shards_lists[dictkey(FCTX(self)._shards_lists, j)].relative_path_self))"),
+    ], frame={"DatasetFiller._updated_infos": ["self"], "DatasetFiller._dataset": [], "DatasetFiller._dataset_filler_context": [],
+              "ShardsList.shard_files": [], "ShardsList.number_of_examples": []})})
